@@ -130,26 +130,28 @@ def r_delegation(F, R):
                             ok = False
             R.check("R-DELEGATE", b.label(), ok, construct="%s delegates with unchanged arguments" % name,
                     where=b.where(), detail="returns %s" % [show(t) for t in rets])
-    # iter / into_iter
-    for b in fs_methods(F, "into_iter", "IntoIterator"):
+    # iter / into_iter: both end up as Iter{indices.iter(), &region}; one may delegate to the other
+    builders = 0
+    for b in fs_methods(F, "into_iter", "IntoIterator") + fs_methods(F, "iter"):
         n += 1
         R.saw(b)
         ctx = Ctx(b)
         rets = [strip_bb(tree(ctx, o)) for o in ctx.org.local(0)]
-        ok = len(rets) == 1 and rets[0][0] == "agg" and rets[0][1] == "Iter::Iter"
-        if ok:
+        ok = False
+        why = ""
+        if len(rets) == 1 and rets[0][0] == "agg" and rets[0][1] == "Iter::Iter":
             ops = rets[0][2]
             ok = ops == (("call", ("IndexContainer", "iter"), (place(b, "f:indices"),), ()), place(b, "f:region"))
-        R.check("R-DELEGATE", b.label(), ok, construct="into_iter = Iter{indices.iter(), &region}",
-                where=b.where(), detail="returns %s" % [show(t) for t in rets])
-    for b in fs_methods(F, "iter"):
-        n += 1
-        R.saw(b)
-        ctx = Ctx(b)
-        rets = [strip_bb(tree(ctx, o)) for o in ctx.org.local(0)]
-        ok = rets == [("call", ("IntoIterator", "into_iter"), (place(b),), ())]
-        R.check("R-DELEGATE", b.label(), ok, construct="iter = into_iter(self)", where=b.where(),
-                detail="returns %s" % [show(t) for t in rets])
+            builders += ok
+            why = "builds Iter{indices.iter(), &region}"
+        elif len(rets) == 1 and rets[0][0] == "call" and rets[0][1][1] in ("into_iter", "iter") and \
+                rets[0][2] == (place(b),):
+            ok = True
+            why = "delegates to %s(self)" % rets[0][1][1]
+        R.check("R-DELEGATE", b.label(), ok, construct="iteration starts as Iter{indices.iter(), &region}",
+                where=b.where(), detail=why or "returns %s" % [show(t) for t in rets])
+    R.check("R-DELEGATE", "FlatStack iteration", builders >= 1, construct="iter()/into_iter() build the iterator",
+            detail="%d of them construct Iter directly" % builders, nontrivial=False)
     # Iter::next / size_hint
     for b in [x for x in F.bodies.values() if x.self_adt == "Iter" and x.trait == "Iterator" and
               x.name in ("next", "size_hint")]:
@@ -162,21 +164,13 @@ def r_delegation(F, R):
             R.check("R-ITER", b.label(), ok, construct="size_hint = inner.size_hint()", where=b.where(),
                     detail="returns %s" % [show(t) for t in rets])
         else:
-            ok = len(rets) == 1 and rets[0][0] == "call" and rets[0][1] == ("Option", "map") and \
-                rets[0][2][0] == ("call", ("Iterator", "next"), (place(b, "f:inner"),), ())
-            # closure: region.index(idx) with idx the closure parameter
-            c_ok = False
-            for (cbi, si, ckey, ops) in closure_sites(b):
-                cb = F.body(ckey)
-                cc = Ctx(cb)
-                for o in cc.org.local(0):
-                    t = strip_bb(tree(cc, o))
-                    if t[0] == "call" and t[1] == ("Region", "index") and \
-                            t[2][1] == ("place", cb.key, ("arg", 2), ()):
-                        cap = operand_tree(ctx, ops[0]) if ops else None
-                        if cap in (place(b, "f:region"), place(b)):
-                            c_ok = True
-            R.check("R-ITER", b.label(), ok and c_ok, construct="next = inner.next().map(|i| region.index(i))",
-                    where=b.where(), detail="returns %s; closure indexes the region with its parameter: %s" % (
-                        [show(t) for t in rets], c_ok))
+            from expr import ret_alts, nobb, NONE
+            alts = [nobb(t) for t in ret_alts(ctx)]
+            somes = [t for t in alts if t != NONE]
+            want = ("agg", "Option::Some", (("call", ("Region", "index"), (
+                place(b, "f:region"),
+                ("call", ("Iterator", "next"), (place(b, "f:inner"),), ("v:Some", "f:0"))), ()),), ())
+            ok = bool(somes) and all(t == want for t in somes)
+            R.check("R-ITER", b.label(), ok, construct="next = inner.next().map(|i| region.index(i))",
+                    where=b.where(), detail="yields %s" % [show(t) for t in somes])
     R.floor("R-DELEGATE", "FlatStack delegation instances", n, 8)
